@@ -83,6 +83,52 @@ impl Property for C03 {
             Tier::Thorough => (11, 4),
         };
         let mut crng = Rng::stream(run_seed, "config");
+        // one run in eight: a design shipped under inputs/ (no exhaustive oracle needed for C03:
+        // any witness that comes back is replayed in the reference semantics of the same text)
+        if crng.chance(1, 8) {
+            let corpus = shipped_for_mc(if tier == Tier::Thorough { 60_000 } else { 12_000 });
+            if !corpus.is_empty() {
+                let (name, text, sys) = corpus[crng.usize_below(corpus.len())].clone();
+                if !sys.bads.is_empty() && sys.states.iter().all(|s| s.next.is_some() || s.init.is_none()) {
+                    let scn = McScenario {
+                        sys,
+                        cfg: McCfg {
+                            profile: crng.usize_below(4),
+                            simplify: crng.bool(),
+                            engine: Engine::Bmc {
+                                individually: crng.bool(),
+                                check_constraints: false,
+                                k: crng.range(1, 4),
+                            },
+                        },
+                        sim_seed: crate::rng::mix(&[run_seed, 33]),
+                        canonical_policy: false,
+                        benign: true,
+                        faults: vec![],
+                        original_btor2: Some(text),
+                    };
+                    let obs = scn.execute(false);
+                    // a stub limit on a real design is not a finding of any kind
+                    let mut obs = obs;
+                    if obs.stub_failure.as_deref().map(|f| f.contains("STUB-LIMIT")).unwrap_or(false) {
+                        obs.stub_failure = None;
+                        acc.count("skipped.shipped_design_beyond_stub_limits", 1);
+                        return None;
+                    }
+                    obs.account(acc);
+                    acc.evaluations += 1;
+                    acc.count("workload.shipped_design_runs", 1);
+                    if let Outcome::Ok(Verdict::Fail(w)) = &obs.outcome {
+                        acc.count("probe.witness_on_shipped_design", 1);
+                        acc.distinct.insert(crate::rng::mix(&[crate::rng::fnv1a(name.as_bytes()), witness_hash(w)]));
+                    }
+                    if let Some(v) = judge(&scn, &obs, acc) {
+                        return Some((v, scn.to_json()));
+                    }
+                    return None;
+                }
+            }
+        }
         let use_pdr = crng.chance(1, 5);
         // find a failing system
         let mut found = None;
@@ -126,6 +172,7 @@ impl Property for C03 {
                 canonical_policy: false,
                 benign: true,
                 faults: vec![],
+                original_btor2: None,
             };
             let obs = scn.execute(false);
             obs.account(acc);
